@@ -419,6 +419,277 @@ def oracle_create(case):
 
 
 # ---------------------------------------------------------------------------------------------------
+# templates in other calendars, the calendar field read from the text
+# ---------------------------------------------------------------------------------------------------
+
+def text_calendar(text):
+    """the calendar id a text names (longest id occurring in it), or None"""
+    best = None
+    for cid in c07.cal_ids():
+        if cid in text and (best is None or len(cid) > len(best)):
+            best = cid
+    return best
+
+
+def tmpl_label(tmpl):
+    return "" if tmpl[:4] == ("ISO", 2000, 1, 1) and (len(tmpl) < 5 or tmpl[4] == 0) else f" template {tmpl!r}"
+
+
+def oracle_template_text(case):
+    """case = (type, pattern text, culture, template (calid, y, m, d), how the template was set, text): parsing never
+    raises — in particular when the calendar named by the text is not the template value's calendar, so that the fields
+    the pattern lacks (era, year, century, month, day) come from a value of ANOTHER calendar"""
+    ty, ptext, cname, tmpl, how, text = case
+    try:
+        pat = c07.create_tmpl(ty, ptext, cname, tmpl, how)
+    except Exception:  # noqa: BLE001 — creation is oracle create.template's business
+        return {"skip": "pattern not created"}
+    f = parse_failure(ty, pat, text, f"{PCLS[ty]} {ptext!r} culture {cname!r}" + tmpl_label(tmpl))
+    if f and f["key"].startswith("parse-raises-"):
+        tc = text_calendar(text)
+        if tc is not None and tc != tmpl[0]:
+            f["key"] += ":calendar-from-text"
+            f["what"] += f" — the text names calendar {tc!r}, the template value is in {tmpl[0]!r}"
+    return f
+
+
+def gen_cal_pattern(rng, ty):
+    """a LocalDate / LocalDateTime pattern text with the calendar field (plain or inside an embedded date pattern)"""
+    fs = [f for f in c07.gen_date_fields(rng, with_cal=False) if not f.startswith("g")] or ["uuuu"]
+    fs.insert(rng.randrange(len(fs) + 1), "c")
+    d = c07.join_fields(rng, "date", fs)
+    if ty == "date":
+        return d
+    t = c07.join_fields(rng, "time", c07.gen_time_fields(rng) or ["HH"])
+    c = rng.random()
+    if c < 0.3:
+        parts = ["ld<" + d + ">", "lt<" + t + ">"]
+    elif c < 0.4:
+        parts = ["ld<" + d + ">", t]
+    else:
+        parts = [d, t]
+    if rng.random() < 0.25:
+        parts.reverse()
+    return parts[0] + rng.choice(["T", " ", "'T'", " 'at' "]) + parts[1]
+
+
+def gen_template(rng, ty, ids):
+    """(calid, y, m, d[, nod]); ISO 2000-01-01 half of the time, otherwise a date of any calendar biased to high months"""
+    if rng.random() < 0.5:
+        t = ("ISO", 2000, 1, 1)
+    else:
+        cid = rng.choice(ids)
+        t = None
+        if rng.random() < 0.4:
+            c = c07.cal(cid)
+            y = rng.randint(c.min_year, c.max_year)
+            m = c.get_months_in_year(y) - rng.choice([0, 0, 1, 2])
+            dd = rng.choice([1, c.get_days_in_month(y, m)])
+            t = c07.date_from_days(cid, c07._P().LocalDate(y, m, dd, c)._days_since_epoch)
+        if t is None:
+            t = c07.gen_value(rng, "date", cid) or ("ISO", 2000, 1, 1)
+    if ty == "datetime":
+        t = t + (rng.choice([0, 0, c07.gen_nod(rng)]),)
+    return t
+
+
+TEMPLATE_TEXT_FIXED = [
+    ("date", "yyyy-MM-dd c", "", ("ISO", 2000, 1, 1), "create", "1445-03-05 Hijri Civil-Indian"),
+    ("date", "MM-dd c", "", ("ISO", 2000, 1, 1), "create", "03-05 Badi"),
+    ("date", "yy-MM-dd c", "", ("ISO", 2000, 1, 1), "create", "45-03-05 Coptic"),
+    ("date", "MM-dd c", "", ("ISO", 2000, 1, 1), "create", "03-05 Um Al Qura"),
+    ("datetime", "yyyy-MM-dd HH:mm c", "", ("ISO", 2000, 1, 1, 0), "create", "5784-03-05 10:00 Hebrew Civil"),
+    ("datetime", "ld<yyyy-MM-dd c> lt<HH:mm>", "", ("ISO", 2000, 1, 1, 0), "create", "1402-03-05 Persian Simple 10:00"),
+    ("date", "dd c", "", ("Hebrew Civil", 5784, 13, 1), "create", "05 ISO"),
+    ("date", "yyyy-MM-dd c", "", ("Hijri Civil-Indian", 1445, 3, 5), "create", "2024-03-05 ISO"),
+    ("date", "uuuu-MM-dd c", "", ("ISO", 2000, 1, 1), "create", "0170-19-01 Badi"),
+]
+
+
+def template_text_cases(ctx):
+    rng = ctx.rng
+    ids = c07.cal_ids()
+    cn = c07.culture_names(ctx, 6)
+    cases = list(TEMPLATE_TEXT_FIXED)
+    for _ in range(ctx.scale(500, 20_000)):
+        ty = rng.choice(["date", "date", "datetime"])
+        ptext = gen_cal_pattern(rng, ty) if rng.random() < 0.85 else rng.choice(["r"] if ty == "datetime" else ["r"])
+        cname = "" if rng.random() < 0.7 or len(cn) < 2 else rng.choice(cn[1:])
+        tmpl = gen_template(rng, ty, ids)
+        how = rng.choice(["create", "create", "with_template_value", "with_calendar"])
+        try:
+            pat = c07.create_tmpl(ty, ptext, cname, tmpl, how)
+        except Exception:  # noqa: BLE001
+            continue
+        if how == "with_calendar":
+            # only the calendar is taken from `tmpl`; record the real template for the label
+            pass
+        texts = []
+        for vc in [tmpl[0]] + rng.sample(ids, 3):
+            v = gen_value(rng, ty, vc)
+            if v is None:
+                continue
+            try:
+                s = pat.format(mk(ty, v))
+            except Exception:  # noqa: BLE001 — formatting belongs to C07
+                continue
+            texts.append(s)
+            if vc in s:
+                for oc in rng.sample(ids, 2):
+                    texts.append(s.replace(vc, oc))       # the fields of one calendar read under another
+            texts.append(mutate(rng, s))
+            texts.extend(out_of_range_variants(rng, s, 2))
+        for tx in texts:
+            cases.append((ty, ptext, cname, tmpl, how, tx))
+    return cases
+
+
+MONTH_TEXT_FORMS = ["yyyy MMMM dd", "yyyy MMM dd", "MMMM", "MMM", "dd MMMM", "uuuu-MMM-dd c", "D", "M", "d", "r", "R", "yyyy-MM-dd", "yy MMMM", "MMMM yyyy g", "dddd dd MMMM uuuu"]
+DT_MONTH_TEXT_FORMS = ["yyyy MMMM dd HH:mm", "ld<yyyy MMMM dd> HH", "ld<dd MMM> lt<HH>", "F", "f", "g", "G", "o", "r", "s", "MMM dd HH", "uuuu-MM-dd'T'HH:mm:ss"]
+
+
+def oracle_create_template(case):
+    """case = (type, pattern text, culture, template, how): creation with a template value of any calendar — through
+    create(text, culture, template), with_template_value or with_calendar — succeeds or raises InvalidPatternError; the
+    created pattern then parses anything without raising"""
+    ty, ptext, cname, tmpl, how = case
+    T = _T()
+    label = f"{PCLS[ty]}.create({ptext!r}, culture {cname!r}" + {"create": f", template {tmpl!r})", "with_template_value": f").with_template_value({tmpl!r})",
+                                                                   "with_calendar": f").with_calendar({tmpl[0]})"}[how]
+    try:
+        c07.template_value(ty, tmpl)
+    except Exception:  # noqa: BLE001
+        return {"skip": "template value not constructible"}
+    try:
+        pat = c07.create_tmpl(ty, ptext, cname, tmpl, how, fresh=True)
+    except T.InvalidPatternError:
+        return None
+    except RecursionError:
+        return fail("create-raises-RecursionError", f"{label} raised RecursionError")
+    except Exception as e:  # noqa: BLE001
+        return fail("create-raises-" + type(e).__name__ + _where(e), f"{label} raised {type(e).__name__}: {str(e)[:120]}")
+    rng = random.Random(hash((ty, ptext, tmpl)) & 0xffffffff)
+    texts = ["", "x", "0", "2020-01-01T00:00:00", "0170 Sharaf 01", "01"]
+    try:
+        v = gen_value(rng, ty, tmpl[0])
+        s = pat.format(mk(ty, v))
+        texts += [s, mutate(rng, s)] + out_of_range_variants(rng, s, 2)
+    except Exception:  # noqa: BLE001 — formatting belongs to C07
+        pass
+    for tx in texts:
+        f = parse_failure(ty, pat, tx, label, check_nul=False)
+        if f:
+            return f
+    return None
+
+
+def create_template_cases(ctx):
+    rng = ctx.rng
+    ids = c07.cal_ids()
+    cn = c07.culture_names(ctx, 4)
+    pool = list("HhmsfFtTuyMdcglZDS+-:/.;'\"\\%<> ,xQ0\0é") + ["ld<", "lt<", ">", "''", "'x'", "\\\\"]
+    cases = [("date", "yyyy MMMM dd", "", ("Badi", 170, 15, 1), "create"),
+             ("date", "yyyy MMM dd", "", ("Badi", 170, 14, 1), "with_template_value"),
+             ("date", "yyyy MMM dd", "", ("Badi", 1, 1, 1), "with_calendar"),
+             ("datetime", "yyyy MMMM dd HH", "", ("Badi", 170, 19, 1, 0), "create")]
+    for _ in range(ctx.scale(1500, 60_000)):
+        ty = rng.choice(["date", "datetime"])
+        c = rng.random()
+        if c < 0.3:
+            ptext = rng.choice(MONTH_TEXT_FORMS if ty == "date" else DT_MONTH_TEXT_FORMS + MONTH_TEXT_FORMS[:6])
+        elif c < 0.8:
+            ptext = gen_custom(rng, ty)
+        else:
+            ptext = mutate_pattern(rng, gen_custom(rng, ty), pool)
+        cname = "" if rng.random() < 0.7 or len(cn) < 2 else rng.choice(cn[1:])
+        tmpl = gen_template(rng, ty, ids)
+        if tmpl[0] == "ISO" and rng.random() < 0.8:
+            tmpl = (lambda t: t if ty == "date" else t + (0,))(c07.gen_value(rng, "date", rng.choice(ids)) or tmpl[:4])
+        cases.append((ty, ptext, cname, tmpl, rng.choice(["create", "create", "with_template_value", "with_calendar"])))
+    return cases
+
+
+# ---------------------------------------------------------------------------------------------------
+# creation SEQUENCES on one shared read-only culture (the per-culture pattern cache of the library is exercised)
+# ---------------------------------------------------------------------------------------------------
+
+SEQ_BAD = {"time": ["HH:mm 'oops", "HH:mm\\", "HH:mm:HH", "HH:mm x"], "date": ["yyyy 'oops", "uuuu-MM-dd\\", "dd dd", "Q"],
+           "datetime": ["uuuu HH 'oops", "HH\\", "HH HH", "ld<uuuu", "x"], "offset": ["+HH 'oops", "HH\\", "HH HH", "x"],
+           "duration": ["D 'oops", "hh\\", "hh hh", "x"], "annual": ["MM 'oops", "dd\\", "MM MM", "x"], "instant": ["uuuu 'oops", "HH\\", "HH HH", "x"]}
+
+
+def oracle_create_sequence(case):
+    """case = (type, culture name, seed, n): on ONE read-only culture object, malformed pattern texts first, then n distinct
+    (mostly valid) pattern texts of the same type, malformed ones sprinkled in between: every single creation succeeds or
+    raises InvalidPatternError; a sample of the created patterns then parses without raising; creating an earlier text
+    again gives a pattern that writes the same text"""
+    ty, cname, seed, n = case
+    T = _T()
+    rng = random.Random(f"{ty}:{cname}:{seed}")
+    cls = c07.pcls(ty)
+    cu = c07.culture(cname)
+    texts, seen = [], set()
+    for b in SEQ_BAD[ty]:
+        texts.append(b)
+    k = 0
+    while len(texts) < n + len(SEQ_BAD[ty]):
+        k += 1
+        t = gen_custom(rng, ty)
+        if t in seen or rng.random() < 0.5:
+            t = t + "'" + "#%d" % k + "'"           # a quoted literal keeps the text valid and makes it distinct
+        if t in seen:
+            continue
+        seen.add(t)
+        texts.append(t)
+        if rng.random() < 0.02:
+            texts.append(mutate_pattern(rng, t, list("HhmsfFtTuyMdcglZDS'\"\\%<>xQ")))
+    made = []
+    v = gen_value(rng, ty)
+    for i, t in enumerate(texts):
+        try:
+            pat = cls.create(t, cu)
+        except T.InvalidPatternError:
+            continue
+        except RecursionError:
+            raise
+        except Exception as e:  # noqa: BLE001
+            return fail("create-raises-" + type(e).__name__ + _where(e) + ":sequence",
+                        f"creation #{i + 1} in a sequence on one read-only culture object ({cname!r}): {PCLS[ty]}.create({t!r}) raised {type(e).__name__}: {str(e)[:100]} "
+                        f"(the sequence starts with the malformed texts {SEQ_BAD[ty]!r})")
+        if i % 40 == 0 or len(made) < 3:
+            made.append((i, t, pat))
+    for i, t, pat in made:
+        label = f"{PCLS[ty]} {t!r} culture {cname!r} (creation #{i + 1} of a sequence)"
+        try:
+            s = pat.format(mk(ty, v))
+        except Exception:  # noqa: BLE001 — formatting belongs to C07
+            s = "0"
+        for tx in (s, mutate(rng, s), ""):
+            f = parse_failure(ty, pat, tx, label, check_nul=False)
+            if f:
+                return f
+        try:
+            again = cls.create(t, cu)
+            s2 = again.format(mk(ty, v))
+        except Exception as e:  # noqa: BLE001
+            return fail("create-raises-" + type(e).__name__ + _where(e) + ":sequence", f"{label}: creating the same text again raised {type(e).__name__}: {str(e)[:100]}")
+        if s != "0" and s2 != s:
+            return fail("create-again-differs", f"{label}: the pattern created first writes {s!r}, the same text created again later writes {s2!r}")
+    return None
+
+
+def create_sequence_cases(ctx):
+    cn = c07.culture_names(ctx, 4)
+    names = [n for n in cn if n] or [""]
+    n = ctx.scale(620, 5200)
+    cases = []
+    for ty in ["time", "date", "datetime", "offset", "duration", "annual", "instant"]:
+        cases.append((ty, names[ctx.rng.randrange(len(names))], ctx.rng.getrandbits(24), n))
+    cases.append(("time", "", ctx.rng.getrandbits(24), n))
+    return cases
+
+
+# ---------------------------------------------------------------------------------------------------
 # run
 # ---------------------------------------------------------------------------------------------------
 
@@ -493,6 +764,11 @@ def run(ctx):
     if len(cn) > 1:
         bad += [(ty, p, ctx.rng.choice(cn[1:])) for (ty, p, _) in ctx.rng.sample(bad, min(len(bad), ctx.scale(300, 20_000)))]
     ctx.check_cases("create.malformed", bad, c07.wrap_skips(ctx, "create.malformed", oracle_create))
+    ctx.check_cases("create.sequence", create_sequence_cases(ctx), oracle_create_sequence)
+    import texthist
+    texthist.run_history(ctx, [("random", ctx.scale(2, 40)), ("culture", ctx.scale(1, 20)), ("width", ctx.scale(1, 20))])
+    ctx.check_cases("create.template", create_template_cases(ctx), c07.wrap_skips(ctx, "create.template", oracle_create_template))
+    ctx.check_cases("parse.template", template_text_cases(ctx), c07.wrap_skips(ctx, "parse.template", oracle_template_text))
     c07.run_num_correspondence(ctx)
     c07.run_iso_correspondence(ctx, "c08")
     run_iso_parse_hostile(ctx)
@@ -530,7 +806,8 @@ def replay_op(op, failure):
     if src.startswith("oracle:"):
         name = src.split(":", 1)[1]
         case = ast.literal_eval(op)
-        fn = {"parse.builtin": oracle_builtin_text, "parse.custom": oracle_custom_text, "create.malformed": oracle_create}[name]
+        fn = {"parse.builtin": oracle_builtin_text, "parse.custom": oracle_custom_text, "create.malformed": oracle_create, "create.template": oracle_create_template, "parse.template": oracle_template_text, "create.sequence": oracle_create_sequence,
+              "text.history": __import__("texthist").oracle_history}[name]
         r = fn(case)
         return None if (r and "skip" in r) else r
     return c07.oracle_text_op(op.split(" "))
